@@ -36,6 +36,10 @@ def cases(shard):
         yield c
         if hist:
             r = dict(c)
+            r["recompile"] = "qlassfa"
+            r["key"] = "via-qlassfa|" + c["key"]
+            yield r
+            r = dict(c)
             r["recompile"] = "same"
             r["key"] = "recompile|" + c["key"]
             yield r
@@ -44,7 +48,16 @@ def cases(shard):
 def compile_case(case):
     """Returns (qf, None) or (None, result-dict for a rejection)."""
     try:
-        if case.get("recompile") == "fresh":
+        if case.get("recompile") == "qlassfa":
+            # the decorator-with-arguments entry point, relying on ITS defaults for everything the configuration leaves at the default
+            from qlasskit import qlassfa
+            kw = {}
+            if case["profile"] != "default":
+                kw["bool_optimizer"] = H.PROFILES[case["profile"]]
+            if not case["uncompute"]:
+                kw["uncompute"] = False
+            qf = qlassfa(**kw)(case["src"])
+        elif case.get("recompile") == "fresh":
             # the same source compiled into ANOTHER object with the opposite flag just before
             H.compile_src(case["src"], case["profile"], not case["uncompute"])
             qf = H.compile_src(case["src"], case["profile"], case["uncompute"])
